@@ -10,6 +10,7 @@ props = [json.loads(l) for l in open('/verif/properties.jsonl')]
 PREF3 = "Prefer changes of these kinds: (i) an INTERACTION between two features that are each fine alone (e.g. memory paging x tape, snapshot loading x sound or video state, breakpoints x fast loading, joystick x keyboard, sound disabled x timing), (ii) legal but unusual sequences of PUBLIC HOST API calls (an API called twice in a row, in the middle of a frame after a breakpoint stop, before the first frame was emulated, after an error was returned, a setter called while the emulator is running), (iii) rarely used public functions or settings that the property's wording covers, (iv) arithmetic at extremes (0, 1, 0xFF, 0xFFFF, wrap-around, i8 extremes, the last line / last T-state / last sample of a frame, the largest legal sample rate or smallest legal buffer), (v) two code sites that each look fine alone (a helper refactored so that one caller's assumption breaks), (vi) state that survives where it should be reset, or is reset where it should survive, only on an unusual path."
 PREF5 = 'Prefer changes that are HARD TO FIND FOR RANDOMISED TESTING yet clearly violate the property as written: assume the verifier drives the public API with seeded random histories and random data and compares against an independent reference model, so anything that random data or random timing hits within a few thousand tries will be found at once. Think of (i) a condition on a SPECIFIC 16-bit or wider value, or on two values being EQUAL (address == length, two register pairs equal, block length == buffer size x k, value == its own complement) that is nevertheless natural in real programs, (ii) a specific ORDER of four or more distinct operations, (iii) a specific ALIGNMENT between two periodic things (instruction boundary vs frame end vs sample boundary vs tape edge vs buffer refill), (iv) state that only differs after a LONG time (counters that wrap after 256 / 65536 / 2^24 events, the 16-frame flash period, very long tapes, many frames), (v) a rarely reached BRANCH of an existing function (an error branch that continues, an else-arm for a legal but unusual configuration), (vi) behaviour that differs only for the SECOND instance of something (second tape inserted, second snapshot loaded, second emulator created, second time the end is reached). Keep it realistic - something a maintainer could plausibly write during a refactoring or optimisation.'
 PREF6 = 'Prefer changes that sit where a RANDOMISED, MODEL-BASED VERIFIER IS LIKELY TO HAVE SIMPLIFIED: assume the verifier drives the public API with seeded random histories against independent reference models, uses small inputs (tapes of a few short blocks, runs of a few dozen frames), mostly default settings, and has already been hardened against needle values, wrapped counters and unusual call orders. Think of (i) SETTINGS and FEATURE combinations that are legal but rarely chosen (autoload_enabled, load_default_rom = false with host ROMs, every ZXAYMode, kempston + mouse + IoExtender together, beeper disabled with AY enabled, volume 0, the largest and smallest sample rates) and paths that only run for one machine model, (ii) the SECOND USE of something (a second load_tape replacing a playing tape, a second load_rom, replacing or removing the IoExtender or DebugInterface, a snapshot loaded after a tape was inserted, set_* called with the value already in force), (iii) ATOMICITY of failing operations: a load / save / rewind that returns Err must leave what the property talks about untouched or well-defined, also when the error comes late (last chunk, last page, after the header was applied), (iv) what happens EXACTLY AT a frame boundary inside a multi-frame emulate_frames call (FrameCount(n) with n > 1, Max mode), or between a load and the first emulated instruction, (v) the extremes the quantifier of the property explicitly includes ("all", "any", "every": the longest block, the highest port, the last bank, the last T-state, the largest legal count) in combination with a second, ordinary condition, (vi) the host seams (Stopwatch values, IoExtender claims, DebugInterface answers, FrameBuffer / asset / recorder implementations that behave legally but unusually: zero-length reads, seeks beyond the end, claims that change, a stopwatch that runs backwards), (vii) compensating errors: two changes that cancel for the common case and only differ for a rare one. Every change must still clearly violate the property AS WRITTEN (not merely differ in something the property leaves open), and must not be a close variant of an earlier one.'
+PREF7 = 'This is a late round: the verifier has by now been hardened against needle values, wrapped counters, unusual call orders, rare settings, second uses, failing operations and host-seam oddities (see the list of earlier changes). To still get past it, (a) first split the STATEMENT of the property into its separate clauses and pick a clause, or a corner of the QUANTIFIER, that NONE of the earlier changes attacked - say in notes.md which clause it is; (b) prefer an effect that is visible through a DIFFERENT observation channel than the obvious one for that clause (for example through border_buffer()/screen_buffer() contents rather than register values, through the timing of a later unrelated instruction, through what a DebugInterface or IoExtender is told, through the audio samples, through what save_snapshot writes, through peek()), or that shows only in the SECOND of two emulator instances alive in the same process (process-wide state such as a lazily initialised static table or cache keyed too coarsely), or only for ONE of the two machine models in combination with a second condition; (c) prefer a fault whose first wrong observable appears LATE - many frames, many instructions or many bytes after the trigger - while everything compared right at the trigger still looks right; (d) prefer inputs that are legal but that no generator written from the property text would think of: tapes or files with zero-length or maximal-length items in the middle, snapshots whose fields contradict each other in a way the loader must resolve the documented way, programs that execute out of contended or ROM or just-paged-out memory, port addresses that select two devices, host calls made from inside a DebugInterface/IoExtender callback-adjacent moment (right after a breakpoint stop, right after an Err). The change must still clearly violate the property AS WRITTEN and must not be a close variant of an earlier one.'
 PREF4 = 'Prefer changes of these kinds: (i) histories of THREE OR MORE distinct steps (public host API calls and/or emulated-program actions) where each prefix behaves correctly and only the full sequence goes wrong, (ii) recovery paths: behaviour after an operation returned an error, after a file was rejected, after the end of a tape/log was reached, after a breakpoint stop - followed by normal use, (iii) DATA-dependent corners: particular byte patterns or lengths (a checksum byte of 0, a run of equal bytes, a length that is an exact multiple of an internal buffer or of a frame, two identical consecutive items, values with the top bit set, the same value written twice with something else in between), (iv) a change in a DIFFERENT subsystem than the one the property names (shared helper, shared state, initialisation order, Default impl, settings plumbing) whose side effect breaks this property, (v) asymmetric twins: two functions / match arms / machine models (48K vs 128K) / channels (left vs right, A/B/C) / directions (read vs write, save vs load, press vs release) that should mirror each other but no longer do in one rarely used case, (vi) saturating / wrapping / truncating conversions (usize<->u16, i8<->u8, f32<->f64, division rounding) that only matter for extreme but legal parameter values.'
 def title(path):
     try:
@@ -38,7 +39,7 @@ for p in props:
     wt = f'/tmp/wt{rnd}-{pid}'
     od = f'/tmp/seed{rnd}-{pid}'
     quant = p.get('quantifier') or p.get('quantification') or ''
-    PREF = {'4': PREF4, '5': PREF5, '6': PREF6}.get(rnd, PREF3)
+    PREF = {'4': PREF4, '5': PREF5, '6': PREF6, '7': PREF7}.get(rnd, PREF3)
     text = f"""You are helping to evaluate a verification effort for the open-source ZX Spectrum emulator "rustzx" (Rust workspace: rustzx-z80 CPU core, rustzx-core machine, aym AY chip, vtx player, rustzx-utils, rustzx-test integration tests). Your job is to play the role of a developer who introduces a REALISTIC, SUBTLE BUG that breaks ONE stated semantic property while everything still compiles and the existing test suite still passes.
 
 Work ONLY inside your own git worktree of the repository: {wt} (a detached checkout of the current code; it has its own build directory). You may read and edit anything inside it. You must NOT read, list or touch /verif, /repo, other /tmp/wt* directories or /tmp/seed* directories of other properties - your result has to be independent of any existing checking machinery. No network is available; always pass --offline to cargo. NEVER use `git stash` (the stash is shared between all worktrees of the repository and other agents are working in parallel): to switch between the unmodified and the modified tree use `git diff > /tmp/seed{rnd}-{pid}/work.patch; git checkout -- .; git apply /tmp/seed{rnd}-{pid}/work.patch`.
